@@ -91,6 +91,9 @@ pub fn live_settled() -> (isize, isize) {
 
 /// The CPUs this thread may run on right now.
 pub fn current_cpus() -> Vec<usize> {
+    if cfg!(miri) {
+        return (0..std::thread::available_parallelism().map_or(1, |n| n.get())).collect();
+    }
     unsafe {
         let mut set: libc::cpu_set_t = std::mem::zeroed();
         if libc::sched_getaffinity(
@@ -141,6 +144,11 @@ impl Cpus {
     /// mask (threads spawned inside inherit the mask).  Returns `f`'s value
     /// and the value `available_parallelism()` reported inside.
     pub fn with<R>(&self, k: usize, rot: usize, f: impl FnOnce() -> R) -> (R, usize) {
+        if cfg!(miri) {
+            // Miri has no sched_setaffinity; the CPU count comes from -Zmiri-num-cpus
+            let seen = std::thread::available_parallelism().map_or(1, |n| n.get());
+            return (f(), seen);
+        }
         let n = self.initial.len().max(1);
         let k = k.clamp(1, n);
         let chosen: Vec<usize> = (0..k)
@@ -200,5 +208,9 @@ pub fn seed32(parts: &[u64]) -> [u8; 32] {
 /// Rotation offset for affinity masks so that concurrently running worker
 /// processes do not all pin themselves to the same low-numbered CPUs.
 pub fn rot() -> usize {
-    std::process::id() as usize
+    if cfg!(miri) {
+        0
+    } else {
+        std::process::id() as usize
+    }
 }
